@@ -19,7 +19,10 @@ one JSON result per line on stdout.
 * epilogue (thread index n = the main thread): once every other thread is either finished or inside serve_forever:
   shutdown(), server_close(), join.
 
-OS schedules are not controlled: this is a sampled stress run.  Lines (global order = order of the log lock):
+OS schedules are not controlled: this is a sampled stress run — except in the GATED histories (`"gated": 1`, class GRun of
+vlib/c18_gates.py, a subclass of Run using the three extension points `server_options` / `busy` / `dead_loop` below) and in
+the direct ThreadsPortal histories (`"mode": "portal"`, c18_gates.run_portal), which this worker also runs.
+Lines (global order = order of the log lock):
     call <i> <op> / ret <i> <outcome>      logged by the calling thread immediately before / after the real call
     @up <i>                                is_up_event.set() of thread i's serve_forever (logged from the loop thread)
     @ret-close <i> open=<n>                listening sockets owned by this process right after server_close() returned
@@ -172,10 +175,24 @@ class Run:
                 request = yield
                 await client.send_packet(request + token)
 
+        opts = self.server_options()
         if self.kind == "tcp":
-            self.server = StandaloneTCPNetworkServer("127.0.0.1", 0, StreamProtocol(StringLineSerializer()), TH())
+            self.server = StandaloneTCPNetworkServer("127.0.0.1", 0, StreamProtocol(StringLineSerializer()), TH(), **opts)
         else:
-            self.server = StandaloneUDPNetworkServer("127.0.0.1", 0, DatagramProtocol(StringLineSerializer()), UH())
+            self.server = StandaloneUDPNetworkServer("127.0.0.1", 0, DatagramProtocol(StringLineSerializer()), UH(), **opts)
+
+    # ---- extension points of the gated histories (vlib/c18_gates.py)
+    def server_options(self) -> dict:
+        """extra (public) constructor parameters of the server: `backend=`, `runner_options=`"""
+        return {}
+
+    def busy(self) -> bool:
+        """a thread is parked at a gate / waits for a scripted event: the history is still moving"""
+        return False
+
+    def dead_loop(self) -> "tuple[int, str] | None":
+        """a call that nothing can complete any more (its event loop has been closed long ago)"""
+        return None
 
     def log(self, s: str) -> None:
         with self.lock:
@@ -416,7 +433,7 @@ class Run:
                 n = len(self.lines)
             now = time.monotonic()
             joining = [k for k in alive if k in self.must_finish]
-            if n != last_n or joining or any(self.state.get(k) is None for k in alive):
+            if n != last_n or joining or any(self.state.get(k) is None for k in alive) or self.busy():
                 last_n, last_t = n, now
             elif now - last_t > 0.25:
                 return False
@@ -432,6 +449,10 @@ class Run:
             if stuck is not None:
                 self.report_hang(stuck, "tstart")
                 return True
+            dead = self.dead_loop()
+            if dead is not None:
+                self.report_hang(*dead)
+                return True
             time.sleep(0.005)
 
     def wait_done(self, threads: list[threading.Thread]) -> bool:
@@ -446,6 +467,10 @@ class Run:
             if stuck is not None:
                 self.report_hang(stuck, "tstart")
                 return True
+            dead = self.dead_loop()
+            if dead is not None:
+                self.report_hang(*dead)
+                return True
             time.sleep(0.005)
         return False
 
@@ -456,7 +481,7 @@ class Run:
             fr = frames.get(th.ident)
             if fr is None:
                 continue
-            st = traceback.extract_stack(fr)[-4:]
+            st = traceback.extract_stack(fr)[-5:]
             self.log("@stack " + th.name + " " + " <- ".join(f"{os.path.basename(f.filename)}:{f.lineno}:{f.name}" for f in reversed(st)))
 
 
@@ -504,7 +529,15 @@ def main() -> None:
             out.flush()
             continue
         try:
-            lines = Run(req["case"]).run()
+            case = req["case"]
+            if case.get("mode") == "portal":
+                from vlib import c18_gates
+                lines = c18_gates.run_portal(case, WATCHDOG, DEAD_START)
+            elif case.get("gated"):
+                from vlib import c18_gates
+                lines = c18_gates.grun_class(sys.modules[__name__])(case).run()
+            else:
+                lines = Run(case).run()
         except BaseException as e:  # noqa: BLE001
             lines = [f"harness-exc {type(e).__name__}: {e}"]
         out.write(json.dumps({"id": req.get("id"), "lines": lines}) + "\n")
